@@ -242,6 +242,47 @@ def run_state_attributes(front, cls):
     return {a: (sorted(writers[a]), sorted(readers[a])) for a in writers if a in readers}, sorted(seen)
 
 
+def payload_attributes(front, cls):
+    """-> (attributes of self the payload-building methods read, attributes of self the restore methods write - directly or through a sub-attribute such as
+    self.rng.bit_generator.state = ...), over the MRO of `cls`"""
+    def methods(names):
+        out = []
+        for c in front.mro(cls):
+            ci = front.classes.get(c)
+            if ci is None:
+                continue
+            for nm in names:
+                if nm in ci.methods:
+                    out.append(ci.methods[nm])
+        return out
+
+    def root_attr(x):
+        # self.a, self.a.b.c, self.a[...]  -> a
+        while isinstance(x, (ast.Attribute, ast.Subscript)):
+            if isinstance(x, ast.Attribute) and isinstance(x.value, ast.Name) and x.value.id == "self":
+                return x.attr
+            x = x.value
+        return None
+    saved, restored = set(), set()
+    for fi in methods(("build_checkpoint_state", "_checkpoint_extra_state")):
+        for x in ast.walk(fi.node):
+            if isinstance(x, ast.Attribute) and isinstance(x.value, ast.Name) and x.value.id == "self" and isinstance(x.ctx, ast.Load):
+                saved.add(x.attr)
+            if isinstance(x, ast.Call) and isinstance(x.func, ast.Name) and x.func.id == "getattr" and len(x.args) >= 2 and isinstance(x.args[0], ast.Name) and x.args[0].id == "self" \
+                    and isinstance(x.args[1], ast.Constant):
+                saved.add(x.args[1].value)
+    for fi in methods(("restore_from_checkpoint", "_restore_extra_state")):
+        for x in ast.walk(fi.node):
+            if isinstance(x, (ast.Attribute, ast.Subscript)) and isinstance(x.ctx, ast.Store):
+                a = root_attr(x)
+                if a is not None:
+                    restored.add(a)
+            if isinstance(x, ast.Call) and isinstance(x.func, ast.Name) and x.func.id == "setattr" and len(x.args) >= 2 and isinstance(x.args[0], ast.Name) and x.args[0].id == "self" \
+                    and isinstance(x.args[1], ast.Constant):
+                restored.add(x.args[1].value)
+    return saved, restored
+
+
 class SubclassFrames(Contract):
     """attributes written on `self` during a run (by the loop of SMCSampler.sample and every method it reaches, for each kernel class) and read
     again later in the run must be restorable from the payload"""
@@ -265,15 +306,15 @@ class SubclassFrames(Contract):
         q = self.qual
         cls = g["shape"]["cls"]
         state, methods = run_state_attributes(I.front, cls)
-        covered = {"history": "history", "rng": "rng_state", "_min_step": "min_step", "sampler_kwargs": "sampler_kwargs"}
+        saved, restored = payload_attributes(I.front, cls)
         for a in sorted(state):
-            key = covered.get(a)
             w = state[a][0]
             by = next((m for m in w if m.endswith(".mutate")), w[0])
-            p.prove(z3.BoolVal(isinstance(d, PyDict) and key is not None and key in d.d),
+            # covered: the payload builders read the attribute and the restore methods write it back (followed through the ast, no attribute names assumed)
+            p.prove(z3.BoolVal(isinstance(d, PyDict) and a in saved and a in restored),
                     f"{q}:C11:attribute self.{a} written by {by} is part of the checkpoint payload")
-        p.prove(z3.BoolVal(len(methods) >= 8 and {"history", "_min_step"} <= set(state)),
-                f"{q}:C11:{cls}: the run's methods were found from the ast ({len(methods)} methods, {len(state)} attribute(s) of run state examined)")
+        p.prove(z3.BoolVal(len(methods) >= 8 and len(state) >= 2 and len(saved) >= 2 and len(restored) >= 2),
+                f"{q}:C11:{cls}: the run's methods were found from the ast ({len(methods)} methods, {len(state)} attribute(s) of run state examined; payload reads {sorted(saved)}, restore writes {sorted(restored)})")
 
 
 class RestoreFromCheckpoint(RestoreFromCheckpointModel):
